@@ -6,6 +6,7 @@
 use std::io::{BufRead, Write};
 use std::panic::{catch_unwind, AssertUnwindSafe};
 
+mod ana;
 mod lex;
 
 pub fn unhex(s: &str) -> Option<Vec<u8>> {
@@ -47,6 +48,25 @@ fn handle(line: &str) -> String {
             Some(t) => lex::lex(&t),
             None => "bad-arg".into(),
         },
+        [cmd @ ("analyze" | "project"), rest @ ..] => {
+            let mut texts = Vec::new();
+            for h in rest {
+                if h.is_empty() {
+                    continue;
+                }
+                // `-` stands for the empty text
+                let t = if *h == "-" { Some(String::new()) } else { unhex_text(h) };
+                match t {
+                    Some(t) => texts.push(t),
+                    None => return "bad-arg".into(),
+                }
+            }
+            if *cmd == "analyze" {
+                ana::analyze_cmd(&texts)
+            } else {
+                ana::project_cmd(&texts)
+            }
+        }
         _ => "bad-op".into(),
     }
 }
